@@ -255,7 +255,8 @@ def run(ctx):
             if kind == "global" and key in PROTECTED_GLOBALS:
                 continue
             # any other process-wide variable written only with the global mutex held (here, or by every caller) is protected too
-            if LockState(f, "global").held_at(n) is True or requires_lock(db, f, "global"):
+            init_only = lambda g: (g.name, g.tu.base) in reach_init and (g.name, g.tu.base) not in reach_run
+            if LockState(f, "global").held_at(n) is True or requires_lock(db, f, "global", serialised=init_only):
                 rep.ok("D4-WHO-MAY-WRITE", where(f), "%s" % (key if kind == "global" else "%s.%s" % key), "written with the global mutex held")
                 continue
             if once_guarded:
